@@ -137,7 +137,7 @@ def explore(cls, n, acc):
 
 
 def shards(tier):
-  ns = range(2, 7) if tier == "quick" else range(2, 9)
+  ns = range(2, 7) if tier == "quick" else range(2, 11)
   return [(c, n) for c in CLASSES for n in ns]
 
 
